@@ -203,7 +203,10 @@ def step (st : St) (toks : List String) : St × String :=
         | "update" => some (.update (if opt opts "stale" == some "1" then 1 else (st.fwd.modRev k).getD 1))
         | _ => none
       match sh with
-      | none => (st, "fwd bad-op")
+      | none =>
+        -- a watch from "now" forwarded through the follower's proxy: the follower answers Created only once the LEADER has
+        -- confirmed the watch, so a write the client issues after Created is delivered
+        if shape == "watch" then (st, "fwd watch created delivered=1 local=-") else (st, "fwd bad-op")
       | some sh =>
         let r := forward false st.fwd k sh lost
         let ans := match r.answer with
